@@ -177,6 +177,9 @@ func (e *refEval) eval(n *ref.Node) (MV, error) {
 		}
 		return e.eval(n.Kids[2])
 	case "sel":
+		if n.Op == "!." && n.Kids[0].K == "kw" && n.Kids[0].S == "null" {
+			return mvNull, errModel // x!.k with x null is an (ordinary) error
+		}
 		if n.Kids[0].K == "kw" && n.Kids[0].S == "this" && n.Op == "." {
 			if v, ok := e.Store[n.S]; ok {
 				return v, nil
@@ -305,6 +308,9 @@ func (g *subGen) intExpr(d int) *ref.Node {
 	default:
 		if g.r.Intn(6) == 0 {
 			// an assignment whose right-hand side fails: the local keeps its value
+			if g.r.Intn(2) == 0 {
+				return ref.Bin("=", ref.ID(g.pick(g.IntLocals)), ref.Bin("+", g.intExpr(0), ref.Sel(ref.Kw("null"), "k", true)))
+			}
 			return ref.Bin("=", ref.ID(g.pick(g.IntLocals)), ref.Bin("+", g.intExpr(0), ref.Call(ref.ID("nofn"), false)))
 		}
 		return ref.Bin("+", ref.Bin("=", ref.ID(g.pick(g.IntLocals)), g.intExpr(d-1)), ref.ID(g.pick(g.IntLocals)))
